@@ -266,8 +266,9 @@ def rule_r4_list(ck, prog, cls='sdk::trace::MultiSpanProcessor', rule='C04.R4'):
         vid = cn['id']
         inits = [(n, v) for n in f.nodes for (i, s, v) in defs_in_node(f, n) if i == vid and n['k'] == 'declstmt']
         init_path = access_path(f, inits[0][1]) if inits and inits[0][1] is not None else None
+        in_loop = set(f.subtree(loop['body'])) | (set(f.subtree(loop['inc'])) if loop.get('inc') is not None and loop['inc'] >= 0 else set())
         updates = [n for n in f.nodes if n['k'] == 'binop' and n['op'] == '=' and strip_casts(f, n['lhs']).get('id') == vid
-                   and n['i'] in f.subtree(loop['body'])]
+                   and n['i'] in in_loop]
         ok = True
         why = []
         if not (init_path and len(init_path) == 2 and init_path[0] == 'this' and init_path[1] in ptr_fields):
